@@ -40,8 +40,22 @@ Definition c02_impl (h : head) (self_ty body out : toks) : bool :=
 Definition view_C02 (c : ctx) (input_toks out : toks) : view :=
   match x_input c with
   | InFn _ _ _ => decided (c02_fn input_toks out) [firstn (List.length input_toks) out]
-  | InMod _ _ _ _ _ => decided (c02_mod input_toks out) [firstn (List.length input_toks) out]
-  | InImpl h _ st body _ _ => decided (c02_impl h st body out) [firstn (List.length input_toks) out]
+  | InMod _ _ body _ _ =>
+      (* the header, and as much of the emitted module body as the original body is long *)
+      decided (c02_mod input_toks out)
+              (match last_brace input_toks with
+               | Some (pre, _) =>
+                   [firstn (List.length pre) out;
+                    match skipn (List.length pre) out with
+                    | TG Brace body' :: _ => firstn (List.length body) body'
+                    | _ => []
+                    end]
+               | None => []
+               end)
+  | InImpl h _ st body _ _ =>
+      decided (c02_impl h st body out)
+              [firstn (List.length (print_attrs (filter (fun a => negb (is_async_trait a)) (h_attrs h)) ++
+                                    kw (h_unsafe h) "unsafe" ++ [TId "impl"] ++ st) + 1) out]
   | _ => na
   end.
 
